@@ -548,11 +548,17 @@ func Legend(ss ...*Spec) string {
 		}
 		switch s.K {
 		case "Alias":
-			if !seen[s.S] {
-				seen[s.S] = true
+			// (two aliases may carry one name: ext5.go; each definition is spelled out)
+			if key := s.S + "=" + s.Sub[0].String(); !seen[key] {
+				seen[key] = true
 				txt := ""
 				Guarded(func() bool { txt = s.Sub[0].Build().String(); return true })
 				parts = append(parts, s.S+" = "+txt)
+			}
+		case "CtxDecl":
+			if txt := legend5(s); !seen[txt] {
+				seen[txt] = true
+				parts = append(parts, txt)
 			}
 		case "AliasRec":
 			if !seen[s.S] {
